@@ -216,12 +216,16 @@ def run(ctx):
     else:
         runs = [dict(conn=1, tok=2, pkts=4), dict(conn=1, tok=3, pkts=4), dict(conn=2, tok=2, pkts=4, fin=1)]
     acts = {}
+    gen_cases = []
     for i, kw in enumerate(runs):
-        cov = (i == 0)      # -coverage on the first (small) run: every action of the model must fire (anti-vacuity)
-        r = tlc_retry(ctx, 'mc', 'TcpReasmMC', 'mc_%d.cfg' % i, cfg_text=mc_cfg(['Agree', 'TypeOK', 'FsmRefinesOrKnown'], **kw), timeout=1500, coverage=cov)
+        first = (i == 0)    # the first (small) run also measures coverage (every action must fire) and emits its histories (GEN)
+        r = tlc_retry(ctx, 'mc', 'TcpReasmMC', 'mc_%d.cfg' % i, cfg_text=mc_cfg(['Agree', 'TypeOK', 'FsmRefinesOrKnown'], emit=first, **kw),
+                      timeout=1500, coverage=first)
         ctx.tlc_expect_ok(r, 'history expectation = abstract receiver; FSM veto matters only behind a FIN (%s)' % kw)
-        if cov:
+        if first:
             acts = getattr(r, 'actions', {})
+            gen_cases += r.printed
+            r.printed = []
     dead = [a for a in ('Open', 'DoHandshake', 'DoSegment', 'DoRetransmit', 'DoFin', 'DoFinAck', 'SwapAdjacent') if acts.get(a, (0, 0))[0] == 0]
     if dead:
         raise Inconclusive('vacuous model: actions never fired: %s' % dead)
@@ -230,18 +234,19 @@ def run(ctx):
     ctx.cov['as_built_fsm_counterexample'] = (r.violated == 'FsmNeverMatters')
 
     # ------------------------------------------------------------------ 2. GEN (exhaustive, small) and SIM (full constants)
-    gkws = [dict(conn=1, tok=3, pkts=4), dict(conn=1, tok=2, pkts=5)] if thorough else [dict(conn=1, tok=2, pkts=4)]
-    gen_cases = []
+    gkws = [dict(conn=1, tok=3, pkts=4), dict(conn=1, tok=2, pkts=5)] if thorough else []
     for k, gkw in enumerate(gkws):
         g = tlc_retry(ctx, 'gen', 'TcpReasmMC', 'gen_%d.cfg' % k, cfg_text=mc_cfg(['Agree'], emit=True, **gkw), timeout=1500)
         ctx.tlc_expect_ok(g, 'GEN')
         gen_cases += g.printed
         g.printed = []
+    gkws = [runs[0]] + gkws
     gen_cases = dedupe(gen_cases)
     if len(gen_cases) < 1000:
         raise Inconclusive('GEN produced too few histories (%d)' % len(gen_cases))
     sims = []
-    for k, (isn, num) in enumerate([('{"low", "half"}', 160 if not thorough else 1500), ('{"low", "wrap", "half"}', 40 if not thorough else 300)]):
+    simruns = [('{"low", "half"}', 1500), ('{"low", "wrap", "half"}', 300)] if thorough else [('{"low", "half"}', 200)]   # quick: wrap ISNs come from the random driver
+    for k, (isn, num) in enumerate(simruns):
         s = tlc_retry(ctx, 'sim', 'TcpReasmMC', 'sim_%d.cfg' % k, simulate='num=%d' % num, depth=18, timeout=1500, seed=ctx.seed * 10 + k,
                     cfg_text=mc_cfg(['Agree'], 2, 4, 8, isn=isn, minemit=5, emit=True))
         ctx.tlc_expect_ok(s, 'SIM')
@@ -250,7 +255,7 @@ def run(ctx):
     sim_cases = dedupe(sims)
     if len(sim_cases) < 500:
         raise Inconclusive('SIM produced too few histories (%d)' % len(sim_cases))
-    cap = 30000 if thorough else 6000
+    cap = 20000 if thorough else 6000
     if len(sim_cases) > cap:
         ctx.rng.shuffle(sim_cases)
         sim_cases = sim_cases[:cap]
